@@ -809,7 +809,7 @@ def run_exhaustive(seed, idx, tier, pristine=None):
 
 
 def scale_tasks(tier):
-    ns = (200,) if tier != "thorough" else (200, 300, 370)
+    ns = (200, 300) if tier != "thorough" else (200, 300, 370, 530)
     return [{"kind": k, "mode": m, "p": p, "n": n} for k in ("l2", "gv", "gc") for m in (0, 1) for n in ns for p in ((1, 3) if n == 200 else (2,))]
 
 
@@ -859,5 +859,5 @@ def extra_checks(seed, tier, args):
     n_rows = sum(r.get("stats", {}).get("probes", {}).get("scale_interval_rows", 0) for r in resk if "stats" in r)
     n_int = sum(r.get("stats", {}).get("probes", {}).get("exhaustive_interval_cases", 0) for r in res if "stats" in r)
     res = res + resk
-    return res, {"scale_sweep": {"tasks": len(ktasks), "rows_in_single_batches": int(n_rows), "what": "for each cost x {optimal, fixed} x (n = 200, p in {1, 3}; thorough also n = 300, 370 with p = 2): every admissible interval in one batch (20 100 to 68 635 rows), then sub-batches with the cuts in int16 / uint16 / int32 / uint8 and in one preallocated buffer refilled in place; all rows judged by the reference and against each other"},
+    return res, {"scale_sweep": {"tasks": len(ktasks), "rows_in_single_batches": int(n_rows), "what": "for each cost x {optimal, fixed} x (n = 200 with p in {1, 3} and n = 300 with p = 2; thorough also n = 370, 530): every admissible interval in one batch (20 100 to 140 715 rows), then sub-batches with the cuts in int16 / uint16 / int32 / uint8 and in one preallocated buffer refilled in place; all rows judged by the reference and against each other"},
         "exhaustive_interval_space": {"tasks": len(tasks), "intervals": int(n_int), "complete": True, "what": "for each cost x {optimal, fixed, fixed per-column / matrix} x p in 1..3 x n in {5, 8} (thorough: also 12, 16): every admissible interval, as one batch under a permuted prange, reversed, shuffled, and as singletons (2-D and 1-D)"}}
